@@ -149,7 +149,8 @@ def run_tlc(
 ) -> TLCResult:
     """run TLC on spec/<module>.tla with spec/<cfg or module>.cfg"""
     meta = tempfile.mkdtemp(prefix='tlc_', dir=os.environ.get('VERIF_TMP', '/tmp'))
-    cmd = ['java', '-XX:+UseSerialGC' if workers == 1 else '-XX:+UseParallelGC', f'-Xmx{heap}', '-XX:CICompilerCount=2', '-Xshare:auto']
+    cmd = ['java', '-XX:+UseSerialGC' if workers == 1 else '-XX:+UseParallelGC', f'-Xmx{heap}', '-XX:CICompilerCount=2', '-Xshare:auto',
+           f'-Djava.io.tmpdir={meta}']   # TLC leaves an empty tlc-* directory per run in the temp dir: keep it inside the metadir, removed below
     if dfs:
         cmd.append('-Dtlc2.tool.queue.IStateQueue=StateDeque')
     cmd += [
